@@ -150,7 +150,8 @@ pub fn run(ctx: &Ctx) -> Outcome {
         "rule-less files (right/ tree has empty footers): at/after the last transition tz-rs must return exactly NoAvailableLocalTimeType (references extrapolate): excluded from comparison and counted".into(),
         "zoneinfo compared on (offset, abbreviation) only; isdst and broken-down fields against glibc only; right/ tree against glibc only".into(),
     ];
-    let verif = Path::new(VERIF_DIR);
+    let verif_buf = crate::run::verif_dir();
+    let verif = verif_buf.as_path();
     let gbin = verif.join("build/glibc_ref");
     let pyref = verif.join("refs/zoneinfo_ref.py");
     if !gbin.exists() {
